@@ -36,6 +36,7 @@
 #include <etl/_type_traits/is_nothrow_move_constructible.hpp>
 #include <etl/_type_traits/is_same.hpp>
 #include <etl/_type_traits/is_trivially_copy_assignable.hpp>
+#include <etl/_type_traits/is_trivially_constructible.hpp>
 #include <etl/_type_traits/is_trivially_copy_constructible.hpp>
 #include <etl/_type_traits/is_trivially_move_assignable.hpp>
 #include <etl/_type_traits/is_trivially_move_constructible.hpp>
@@ -59,8 +60,12 @@ namespace detail {
 template <typename T>
 concept variant_copy_assignable = is_copy_constructible_v<T> and is_copy_assignable_v<T>;
 
+// Asks about construction from T const& itself: is_trivially_copy_constructible_v<T> answers for T().
 template <typename T>
-concept variant_trivially_copy_assignable = is_trivially_copy_constructible_v<T> and is_trivially_copy_assignable_v<T>;
+concept variant_trivially_copy_constructible = is_trivially_constructible_v<T, T const&>;
+
+template <typename T>
+concept variant_trivially_copy_assignable = variant_trivially_copy_constructible<T> and is_trivially_copy_assignable_v<T>;
 
 template <typename T>
 concept variant_move_assignable = is_move_constructible_v<T> and is_move_assignable_v<T>;
@@ -143,7 +148,7 @@ public:
     constexpr variant(variant const&) = default;
 
     constexpr variant(variant const& other) noexcept((... and etl::is_nothrow_copy_constructible_v<Ts>))
-        requires((... and etl::is_copy_constructible_v<Ts>) and !(... and etl::is_trivially_copy_constructible_v<Ts>))
+        requires((... and etl::is_copy_constructible_v<Ts>) and !(... and detail::variant_trivially_copy_constructible<Ts>))
         : variant(other, copy_move_tag{})
     {
     }
